@@ -26,10 +26,14 @@ type c04Params struct {
 	Cap     int      // capacity of the delivery queue
 	Late    bool     // consumer receives only at the end
 	Pause   time.Duration
+	// MidDrain > 0: (with Late) after write number MidDrain the writer waits a
+	// second and the consumer drains the queue once, then writing continues:
+	// lines dropped before the drain must show in the percentage of lines after it.
+	MidDrain int
 }
 
 func (p c04Params) String() string {
-	return fmt.Sprintf("initial=%q chunks=%q regex=%q cap=%d late=%v pause=%v", p.Initial, p.Chunks, p.Regex, p.Cap, p.Late, p.Pause)
+	return fmt.Sprintf("initial=%q chunks=%q regex=%q cap=%d late=%v pause=%v middrain=%d", p.Initial, p.Chunks, p.Regex, p.Cap, p.Late, p.Pause, p.MidDrain)
 }
 
 type c04Line struct {
@@ -85,6 +89,8 @@ func c04Scenario(p c04Params, idx int) *explore.Scenario {
 					}
 				})
 			}
+			midReq := vrt.Make[struct{}]("midDrainRequest", 0)
+			midAck := vrt.Make[struct{}]("midDrainDone", 0)
 			writerDone := vrt.Make[struct{}]("writerDone", 0)
 			vrt.Go("writer", func() {
 				defer writerDone.Close("writerDone")
@@ -97,9 +103,21 @@ func c04Scenario(p c04Params, idx int) *explore.Scenario {
 						vrt.Sleep("writer-pause", p.Pause)
 					}
 					f.Write([]byte(c))
+					if p.MidDrain > 0 && i+1 == p.MidDrain {
+						vrt.Sleep("before-mid-drain", time.Second)
+						midReq.Send("mid", struct{}{})
+						midAck.Recv("mid")
+					}
 				}
 				f.Close()
 			})
+			if p.MidDrain > 0 && p.MidDrain <= len(p.Chunks) {
+				midReq.Recv("mid")
+				for lines.Len("drain") > 0 {
+					recv(lines.Recv("drain"))
+				}
+				midAck.Send("mid", struct{}{})
+			}
 			writerDone.Recv("wait-writer")
 			// the writer is done: give the follower time to see everything (polls every 100 ms)
 			vrt.Sleep("settle", 2*time.Second)
@@ -241,7 +259,7 @@ func c04Compositions(s string, maxParts int) (out [][]string) {
 }
 
 func c04ParamSets(tier string) (ps []c04Params, d int) {
-	texts := []string{"a\n", "a\nbb\n", "é\nbb\n"}
+	texts := []string{"a\n", "a\nbb\n", "é\nbb\n", "a\nbb\né\n"}
 	maxParts := 2
 	if tier == "thorough" {
 		texts = []string{"a\n", "bb\n", "é\n", "a\nbb\n", "é\nbb\n", "bb\na\né\n", "a\nbb"}
@@ -256,6 +274,9 @@ func c04ParamSets(tier string) (ps []c04Params, d int) {
 				ps = append(ps, c04Params{Initial: "old\n", Chunks: chunks, Cap: 1, Late: true})
 				ps = append(ps, c04Params{Initial: "", Chunks: chunks, Regex: "a", Cap: 100})
 				ps = append(ps, c04Params{Initial: "", Chunks: chunks, Cap: 100, Pause: 150 * time.Millisecond})
+			}
+			if len(chunks) == 2 && strings.Count(chunks[0], "\n") >= 2 {
+				ps = append(ps, c04Params{Initial: "old\n", Chunks: chunks, Cap: 1, Late: true, MidDrain: 1})
 			}
 		}
 	}
@@ -296,7 +317,7 @@ func init() {
 					dd = 2
 				}
 				sc := c04Scenario(p, c.Shard*100000+i)
-				sc.Agg = fmt.Sprintf("c04 cap=%d late=%v regex=%q pause=%v", p.Cap, p.Late, p.Regex, p.Pause)
+				sc.Agg = fmt.Sprintf("c04 cap=%d late=%v regex=%q pause=%v middrain=%v", p.Cap, p.Late, p.Regex, p.Pause, p.MidDrain > 0)
 				sub := *c
 				sub.Explore(sc, dd, func(msg string, v *explore.Violation) string {
 					switch {
